@@ -127,8 +127,9 @@ def schedules(max_size=160):
     # Hypothesis draws short lists by default: the long variants make sure pre-emptions also happen late in a run
     # PCT-style: random process priorities; 1-3 "change points" that hold a process back for a while right after its
     # n-th release of the cluster lock (between two critical sections) -- finds ordering bugs of small depth
+    # "any": count the releases of every lock (cluster state and result files) instead of the cluster lock only
     pause = st.fixed_dictionaries({"thread": st.sampled_from([0, 1, 1, 2, 2, 3, 3, 4, 5, 6]), "release": st.integers(1, 9),
-                                   "steps": st.integers(20, 250)})
+                                   "steps": st.integers(20, 250), "any": st.sampled_from([False, False, True])})
     pct = st.fixed_dictionaries({
         "picks": st.one_of(st.just([]), sparse),
         "prio": st.lists(st.integers(0, 9), min_size=8, max_size=8),
